@@ -195,12 +195,17 @@ def Qratio(z1, z2, nstop, dns1 = None, dns2 = None, eps1 = 1e-3, eps2 = 1e-16):
     # with another one. Q_1 has a closed form that has no such problem.
     # (Only that close: the closed form of psi_1 cancels next to ITS zeros,
     # which lie at least 0.01 away from the multiples of pi.)
+    # (Not next to the multiple 0: there psi_1 = z^2/3 is itself a difference
+    # of two numbers close to 1. xi_1 is written as -exp(iz)(1 + i/z): the
+    # sum psi_1 - i chi_1 cancels completely once exp(-2 Im z) < 1e-16.)
+    def near_zero_of_psi_0(z):
+        return abs(z) > 1. and abs(1. - exp(-2j*z)) < 1e-3
     start = 1
     if (nstop >= 1 and max(abs(b1), abs(b2)) < 100. and
-            min(abs(1. - exp(-2j*z1)), abs(1. - exp(-2j*z2))) < 1e-3):
+            (near_zero_of_psi_0(z1) or near_zero_of_psi_0(z2))):
         def psi_over_xi_1(z):
             psi_1 = sin(z)/z - cos(z)
-            return psi_1 / (psi_1 - 1j*(cos(z)/z + sin(z)))
+            return psi_1 / (-exp(1j*z)*(1. + 1j/z))
         qns[1] = psi_over_xi_1(z1) / psi_over_xi_1(z2)
         start = 2
 
